@@ -41,6 +41,10 @@ def task_spec(draw):
         s['fault'] = 'open'
     elif k == 3:
         s['fault'] = 'spawn'
+    if draw(st.integers(0, 3)) == 0:
+        s['stubborn'] = True      # a process of the task's group handles SIGINT / SIGTERM itself
+    if draw(st.integers(0, 2)) == 0:
+        s['srun'] = True          # launched through Srun (its own kill routine)
     k = draw(st.integers(0, 5))
     if k == 0:
         s['timeout'] = draw(st.sampled_from([1, 5, 30]))
